@@ -97,7 +97,7 @@ func CheckC17(c *Ctx) {
 			a[m] = 0
 			add(v.Canonical(a))
 		}
-		for len(inputs) < c.Pick(2000, 25_000) {
+		for len(inputs) < c.Pick(2000, 100_000) {
 			a := gen.MixedAssign(r, v)
 			s, _ := gen.RandomSpelling(r, v, a)
 			add(s)
